@@ -1,8 +1,10 @@
 import MoreExec.Props.C12
 import MoreExec.Props.C11
+import MoreExec.Props.C08
 #print axioms MoreExec.Lifecycle.C12_pending_keeps_alive
 #print axioms MoreExec.Lifecycle.C12_worker_not_stuck
 #print axioms MoreExec.Lifecycle.C12_worker_exits
 #print axioms MoreExec.Lifecycle.C12_collected_not_in_iteration
 #print axioms MoreExec.Lifecycle.C12_source_facts
 #print axioms MoreExec.Shutdown.C11_join_means_exited
+#print axioms MoreExec.Poll.C08_source_facts
